@@ -192,7 +192,7 @@ func (pd *perRawBitData) appendBitString(bytes []byte, bitsLength uint64, extens
 		perTrace(2, fmt.Sprintf("Encoding BIT STRING size %d", ub))
 		if sizes > 2 {
 			pd.appendAlignBits()
-			pd.bytes = append(pd.bytes, bytes...)
+			pd.bytes = append(pd.bytes, bytes[:sizes]...)
 			pd.bitsOffset = uint(ub & 0x7)
 			perTrace(1, perRawBitLog(bitsLength, len(pd.bytes), pd.bitsOffset, bytes))
 		} else {
